@@ -239,9 +239,12 @@ namespace pl
             return true;
         }
         // like the library's demos, the validity checker includes the bounds test (OMPL leaves that to the user's checker)
+        // validity = bounds + obstacles, as the library's demos do; a world may instead leave the bounds to the planner
+        // (boundsLeftToPlanner: obstacles only - every input state is in bounds then, and so must every path state be)
+        bool boundsLeftToPlanner = false;
         bool valid(const ob::State *s) const
         {
-            if (!space->satisfiesBounds(s)) return false;
+            if (!boundsLeftToPlanner && !space->satisfiesBounds(s)) return false;
             double p[3] = {0, 0, 0}, h = 0;
             pose(s, p, h);
             return validPose(p, h);
@@ -606,9 +609,23 @@ namespace pl
         }
     };
 
+    inline void fillPdef(const ob::ProblemDefinitionPtr &pdef, World &w, bool withObjective = true);
     inline ob::ProblemDefinitionPtr makePdef(World &w, bool withObjective = true)
     {
         auto pdef = std::make_shared<ob::ProblemDefinition>(w.si);
+        fillPdef(pdef, w, withObjective);
+        return pdef;
+    }
+    // the same ProblemDefinition object re-used for another query: old start states, goal and solution paths are dropped first
+    inline void refillPdef(const ob::ProblemDefinitionPtr &pdef, World &w, bool withObjective = true)
+    {
+        pdef->clearStartStates();
+        pdef->clearGoal();
+        pdef->clearSolutionPaths();
+        fillPdef(pdef, w, withObjective);
+    }
+    inline void fillPdef(const ob::ProblemDefinitionPtr &pdef, World &w, bool withObjective)
+    {
         ob::ScopedState<> s(w.space);
         // interleave bad and good starts: bad ones first so that planners must skip them
         for (auto &r : w.badStarts)
@@ -663,7 +680,6 @@ namespace pl
             auto opt = std::make_shared<ob::PathLengthOptimizationObjective>(w.si);
             pdef->setOptimizationObjective(opt);
         }
-        return pdef;
     }
 
     // ---------------------------------------------------------------------------------------------
@@ -805,7 +821,8 @@ namespace pl
         }
         if (w.rangeMode != 0 && p->params().hasParam("range"))
         {
-            double r = w.rangeMode == 1 ? 0.02 * w.ext : 2.0 * w.ext;
+            // 1 small, 2 far larger than the space, 3 of the order of the space (steps that overshoot the box by a little)
+            double r = w.rangeMode == 1 ? 0.02 * w.ext : w.rangeMode == 3 ? 0.45 * w.ext : 2.0 * w.ext;
             p->params().setParam("range", std::to_string(r));
         }
         return p;
